@@ -25,6 +25,7 @@ def run(ctx):
                 "to/|to|, unit / proper rotation), into_angle_axis validated by Rodrigues(angle, axis) = MatOfQuat(q)")
     thorough = ctx.tier == "thorough"
     core.law_runs(ctx, "Law_Xform", ["Law_Xform_P"])
+    core.law_runs(ctx, "Law_XformS", ["Law_XformS"])      # the same laws as polynomial identities on free symbols
     n = 600 if thorough else 40
     # symbolic lane: quaternion components, vectors and scalars are free symbols - Hamilton product, sums, conjugate, norm,
     # q*Vec3, q*Vec4, composition (p*q)*v = p*(q*v) and the conversions are compared as polynomials (all inputs at once)
